@@ -93,8 +93,73 @@ def run(ctx):
     diff_tie(ctx, "for-simple", exe, ["simple"], "simple", gen_simple(ctx), oracle=simple_oracle, describe=describe_simple,
              nontrivial=lambda c, t: any(c[i + 1] - c[i] > c[i + 2] for i in range(0, len(c), 3)),
              bucket=lambda c: "simple maxbits=%d" % max((c[i + 1] - c[i]).bit_length() for i in range(0, len(c), 3)))
-    # ---- oracle runs on the real library (all partitioners, 1d/2d/3d, for_each, invoke)
+    # ---- proportional split (binary32 arithmetic, Flocq model evaluated inside Coq)
     rng = ctx.rng
+    trip = []
+    sizes = [2, 3, 4, 5, 6, 7, 8, 9, 15, 16, 17, 31, 33, 100, 1000, 2 ** 24 - 1, 2 ** 24, 2 ** 24 + 1, 2 ** 24 + 3, 2 ** 25 + 1, 2 ** 32 - 1, 2 ** 32 + 5,
+             2 ** 40 + 12345, 2 ** 53 + 1, 2 ** 63 - 1, 2 ** 63, 2 ** 63 + 12345, 2 ** 64 - 1]
+    for sz in sizes:
+        for n in list(range(2, 20)) + [31, 32, 33, 63, 64, 65, 127, 128, 255, 1000, 4096, 65535]:
+            trip += [sz, n - n // 2, n // 2]
+    for _ in range(ctx.scale(300, 20000)):
+        n = rng.choice([2, 3, 5, 6, 7, 9, 11, 12, 16, 24, 48, 100, 1024])
+        trip += [max(2, rng.getrandbits(rng.choice([2, 4, 10, 24, 25, 33, 53, 63, 64]))), n - n // 2, n // 2]
+    ncase = len(trip) // 3
+    rc, lines, err = ctx.run_driver(exe, ["psplit"], [trip], timeout=300)
+    impl = lines[0].split() if lines else []
+    try:
+        model = ctx.coq_eval_list("From OTV Require Import PsplitModel.", "run_psplit [%s]" % "; ".join(map(str, trip)))
+    except Exception as e:
+        ctx.broken("PsplitModel evaluation", str(e))
+        model = []
+    bad = 0
+    for i in range(ncase):
+        sz, lf, rt = trip[3 * i:3 * i + 3]
+        got = impl[i] if i < len(impl) else "MISSING"
+        ctx.count(("psplit", sz, lf, rt), True, "psplit bits=%d" % sz.bit_length())
+        what = "blocked_range(0,%d) split by proportional_split(%d,%d)" % (sz, lf, rt)
+        if not got.isdigit() or not (1 <= int(got) <= sz - 1):
+            bad += 1
+            ctx.add(Finding("violation", "psplit-empty-part", "%s: right part has %s elements — one side of the split is empty" % (what, got),
+                            {"tie": "psplit", "case": [sz, lf, rt], "impl": got, "model": model[i] if i < len(model) else None}))
+            break
+        if i < len(model) and int(got) != model[i]:
+            bad += 1
+            if bad <= 2:
+                ctx.add(Finding("broken", "broken:tie:psplit", "%s: implementation %s, binary32 model %d" % (what, got, model[i]),
+                                {"tie": "psplit", "case": [sz, lf, rt], "impl": got, "model": model[i]}))
+        else:
+            ctx.traces_validated += 1
+    ctx.ties.append({"name": "psplit (Flocq binary32 model evaluated by vm_compute)", "cases": ncase, "disagreements": bad})
+    ctx.rules.append("psplit: sizes 2..9, 2^k+-1, 2^24+-1, > 2^32, up to 2^64-1 x (left,right) = (n-n/2, n/2) for n = 2..19, 31..33, 63..65, ... ; compared with the Flocq model")
+    # ---- directed sweep: small ranges x all partitioners x arena concurrency 1..12 (static/affinity divisors are odd there)
+    sweep = []
+    for P in range(1, 13):
+        for part in range(4):
+            for sz in list(range(0, 20)) + [31, 48]:
+                for g in (1, 2, 3):
+                    if ctx.quick() and (sz > 12 and g > 1):
+                        continue
+                    sweep.append([part, P, 0, sz, g])
+    rc, lines, err = ctx.run_driver(exe, ["chunks"], sweep, timeout=600)
+    nb = 0
+    for case, ln in zip(sweep, lines + ["CRASH"] * (len(sweep) - len(lines))):
+        ctx.count(("sweep", tuple(case)), True, "sweep P=%d" % case[1])
+        toks = ln.split()
+        msg = None
+        if not toks or not toks[0].isdigit():
+            msg = "driver: " + ln[-60:]
+        else:
+            v = [int(x) for x in toks]
+            msg = tiling_error(list(zip(v[1::2], v[2::2])), case[2], case[3])
+        if msg:
+            nb += 1
+            ctx.add(Finding("violation", "for-chunks", "parallel_for(blocked_range(%d,%d,%d), %s_partitioner) in task_arena(%d): %s" % (case[2], case[3], case[4], PARTS[case[0]], case[1], msg),
+                            {"tie": "for-oracle", "mode": "chunks", "case": case}))
+            break
+    ctx.ties.append({"name": "for-sweep (oracle only)", "cases": len(sweep), "disagreements": nb})
+    ctx.rules.append("sweep: every size 0..19,31,48 x grain 1..3 x 4 partitioners x arena concurrency 1..12; predicate = non-empty disjoint covering chunks")
+    # ---- oracle runs on the real library (all partitioners, 1d/2d/3d, for_each, invoke)
     bad = 0
     n = ctx.scale(250, 6000)
     for k in range(n):
